@@ -293,7 +293,27 @@ def rule_R7_sqrt(text):
     return re.subn(r'\(\s*(\w+)\s+as\s+f32\s*\)\s*\.sqrt\(\)\s*as\s+(usize|u64)\s*\+\s*1', r'verif_sqrt_limit_\2(\1)', text)
 
 
-RULES = [('R7', rule_R7_sqrt), ('R5', rule_R5_strip), ('R2', rule_R2_unchecked), ('R34', rule_R34_asserts), ('R6', rule_R6_minmax)]
+def rule_R16_copy(text):
+    """`X.copy_from_slice(Y)` -> `verif_copy_from_slice(X, Y)` (mode-dependent contract: equal lengths is a requirement in
+    mode S and a consequence of returning in mode P)"""
+    n = 0
+    while True:
+        m = rsscan.mask(text)
+        mt = re.search(r'\.\s*copy_from_slice\s*\(', m)
+        if not mt:
+            break
+        op = mt.end() - 1
+        cl = rsscan.match_close(m, op)
+        rs = _receiver_start(m, mt.start())
+        recv = text[rs:mt.start()].strip()
+        arg = text[op + 1:cl]
+        old = text[rs:cl + 1]
+        text = text[:rs] + _pad_newlines(old, 'verif_copy_from_slice(%s, %s)' % (recv, arg.strip())) + text[cl + 1:]
+        n += 1
+    return text, n
+
+
+RULES = [('R16', rule_R16_copy), ('R7', rule_R7_sqrt), ('R5', rule_R5_strip), ('R2', rule_R2_unchecked), ('R34', rule_R34_asserts), ('R6', rule_R6_minmax)]
 
 
 # --------------------------------------------------------------------------------------------
